@@ -92,3 +92,25 @@ CHECKS["C12"] = hist_check("C12",
     "makes exactly k block calls and returns false. Non-trivial = a walk covered an area with holes and a full/single-block area and >= 64 blocks were "
     "visited. Distinct = hash of the IR text.",
     [R("rel", 24000, 400000, 2.0), R("dbg", 8000, 100000, 1.0), R("sec", 10000, 100000, 1.0)])
+
+CHECKS["C13"] = hist_check("C13",
+    "cases = option vector x history x virtual time: the first rows are a greedy pairwise covering array over 16 commit/purge/arena/reclaim options "
+    "(purge_delay {-1,0,1,10}, purge_decommits, purge_extend_delay, eager_commit, eager_commit_delay, arena_eager_commit, disallow_arena_alloc, "
+    "arena_reserve {32M,64M,1G}, arena_purge_mult, abandoned_reclaim_on_free, abandoned_page_purge, target_segments_per_thread, max_segment_reclaim, "
+    "deprecated_page_reset, generic_collect, allow_large_os_pages), later vectors are random; options are set before the first allocation; histories mix "
+    "the C01/C03/C04/C05/C12 generators with `tick` ops on the virtual clock. Oracle: the C01/C03/C04/C05/C12 oracles unchanged, plus (OS shim) every "
+    "madvise(DONTNEED|FREE), mprotect(PROT_NONE) and munmap range issued by the allocator intersects no live model block, plus (debug/secure builds, where "
+    "decommit revokes access) no fault. Non-trivial = a purge/decommit/unmap call was observed while >= 8 blocks were live. Distinct = hash of the IR text "
+    "(which includes the option vector).",
+    [R("rel", 5000, 100000, 2.0), R("dbg", 2000, 30000, 1.0), R("sec", 2000, 30000, 1.0)],
+    assumptions=["transparent huge pages are disabled at the OS level (prctl) in the harness process; allow_large_os_pages still toggles the allocator's code path"])
+
+CHECKS["C11"] = hist_check("C11",
+    "cases = (configuration x workload x repetitions): arenas default / disallow_arena_alloc / arena_reserve 32-64 MiB, purge_delay {10,0,1,-1}; workload shapes "
+    "small, large pages, huge and multi-segment huge, aligned-huge (alignment >= 32 MiB), > 34 segments, > 32 exited helper threads, mixed, each followed by a "
+    "random history; the body is executed 4-9 times in one process, each repetition ending in free-all, heap deletes and mi_collect(true). Oracle A (OS shim mapping "
+    "table at quiescence): no non-arena mapping > 64 KiB remains, <= 40 small bookkeeping mappings, and with purging enabled no resident page inside arenas. Oracle B: "
+    "mapped bytes, mapping count (exact) and resident pages (16-page tolerance) do not grow from repetition i-1 to i for i >= 3. Non-trivial = the workload made the "
+    "allocator obtain at least one region directly from the OS besides arena reservations. Distinct = hash of the IR text.",
+    [R("rel", 3000, 60000, 2.0), R("dbg", 800, 15000, 1.0)],
+    assumptions=["resident pages are measured with mincore over the mappings recorded by the shim (private anonymous memory)", "with purge_decommits=0 (MADV_FREE) residency is not asserted"])
